@@ -17,7 +17,7 @@ from .. import common, discrete_corr as dc
 from ..common import Result, Violation, f2h
 
 META = dict(
-    level='Lean theorems: the one-pass running-maximum logsumexp returns log(sum exp x_i) for every list (loop invariant r*exp(alpha)=sum, -inf handled), result is -inf iff all inputs are; log-space combine/ratio are the images of linear */ /, and the div_0_null conventions (-inf - -inf -> -inf, 0/0 -> 0) correspond; laws of exp/log are hypotheses discharged for the reals with -inf adjoined; see design_notes/C12.md for the pass-level statement. The generic pass definitions are executed at Float with logOps and linOps against the real LogLikelihoods/Likelihoods runs; public API compared across spaces on underflow-guarded inputs (inside_outside and maximization).',
+    level='Lean theorems: the one-pass running-maximum logsumexp returns log(sum exp x_i) for every list (loop invariant r*exp(alpha)=sum, -inf handled), result is -inf iff all inputs are; log-space combine/ratio are the images of linear */ /, and the div_0_null conventions (-inf - -inf -> -inf, 0/0 -> 0) correspond; pass_log_eq_lin: every inside row, denominator, cached message, the marginal likelihood and every outside row of the log-space run map under exp to those of the linear run on the exp-image input (all inputs, multi-tree included, both standardise options, ignore_oldest_root), under guards evaluated on the linear run (span fractions positive, no zero denominator/standardiser, 0/0 the only division by zero); laws of exp/log/pow are hypotheses discharged for the reals with -inf adjoined. Partial: the maximization pass is not in the model (argmax under a monotone map; covered by the cross-space oracle only). The generic pass definitions are executed at Float with logOps and linOps against the real LogLikelihoods/Likelihoods runs; public API compared across spaces on underflow-guarded inputs (inside_outside and maximization).',
     note='Lean kernel + {propext, Classical.choice, Quot.sound}; exact arithmetic: IEEE under/overflow excluded by the property itself; libm exp/log trusted within tolerance 1e-9',
     technique='loop invariant + homomorphism of operation records (log space = image of linear space under exp) + correspondence at Float',
     ref='§3 C12',
@@ -292,8 +292,8 @@ def run(ctx):
     import tsdate  # noqa: F401
     stats = new_stats()
     recs = []
-    oracle(ctx, ctx.n(60, 1500), 1, res, stats, recs)
-    correspondence(recs[: ctx.n(80, 600)], res, stats)
+    oracle(ctx, ctx.n(100, 1500), 1, res, stats, recs)
+    correspondence(recs[: ctx.n(120, 600)], res, stats)
     res.rule = ("msprime-simulated inputs (2-6 samples, 1-8 trees, polytomies) with tsdate's own lognormal/gamma prior grids "
                 "(3-8 quantiles), and random tree shapes with arbitrary non-negative prior rows (incl. zeros) on random grids; "
                 "eps in {0,1e-8,1e-6,1e-3}; inside_outside (outside_standardize, cache_inside) and maximization run in both "
